@@ -265,7 +265,7 @@ def property_oracles(ctx, T, codes, athlib, reqs, groups, vals, errs):
         is_timed = W.timed(W.kind_of(codes, ev))
         std = b[1] / f[1]
         prev = None
-        gr = {}
+        gr = {}; exact_form = set()
         for i in gidx:
             k = reqs[i][5]; v = H.impl_of(vals, errs, i)
             p = k / 100.0
@@ -275,6 +275,7 @@ def property_oracles(ctx, T, codes, athlib, reqs, groups, vals, errs):
                          H.show(v), note='grade-definition', replay_py=H.replay_py(reqs[i]))
                 continue
             gr[k] = v[1]
+            if reqs[i][6] == '': exact_form.add(k)
             if prev is not None and not ((v[1] < prev[1]) if is_timed else (v[1] > prev[1])):
                 ctx.fail(H.fn_name(reqs[i]), args + [prev[0] / 100.0, p], 'the better performance grades strictly higher',
                          '%r then %r' % (prev[1], v[1]), note='monotone', replay_py=H.replay_py(reqs[i]))
@@ -284,7 +285,8 @@ def property_oracles(ctx, T, codes, athlib, reqs, groups, vals, errs):
         col = a2 // 2 - t.ages[0]
         if a2 % 2 == 0 and 0 <= col < len(row.facs) and row.facs[col] == 1:
             kb = row.best * 100
-            if kb.denominator == 1 and int(kb) in gr and abs(gr[int(kb)] - 1.0) > H.TIGHT:
+            # x / x is exactly 1.0 in binary floating point: a number-form mark must grade exactly 1.0 (text forms: within round-off)
+            if kb.denominator == 1 and int(kb) in gr and (gr[int(kb)] != 1.0 if int(kb) in exact_form else abs(gr[int(kb)] - 1.0) > H.TIGHT):
                 ctx.fail('athlib.wma_age_grade', args + [float(row.best)], '1.0 (factor is 1, performance is the open best)',
                          repr(gr[int(kb)]), note='unit')
         # letter case: same factor, best (and grades on common marks) as the tabulated spelling
